@@ -119,6 +119,13 @@ impl Runner {
             "bp" => self.buffering_period(&unhex(toks.get(1).copied().unwrap_or(""))),
             "t35" => self.t35(&unhex(toks.get(1).copied().unwrap_or(""))),
             "stream" => self.stream(&toks[1..]),
+            "hdr" => { let b: u8 = toks[1].parse().unwrap(); match NalHeader::new(b) { Ok(h) => format!("ok {} {} back={}", h.nal_ref_idc(), h.nal_unit_type().id(), u8::from(h)), Err(_) => "err".into() } }
+            "unittype" => { let b: u8 = toks[1].parse().unwrap(); match h264_reader::nal::UnitType::for_id(b) { Ok(u) => format!("ok {}", u.id()), Err(_) => "err".into() } }
+            "profile" => { let b: u8 = toks[1].parse().unwrap(); use h264_reader::nal::sps::{Profile, ProfileIdc}; format!("{}", Profile::from_profile_idc(ProfileIdc::from(b)).profile_idc()) }
+            "level" => { let f: u8 = toks[1].parse().unwrap(); let l: u8 = toks[2].parse().unwrap(); use h264_reader::nal::sps::{Level, ConstraintFlags}; let lv = Level::from_constraint_flags_and_level_idc(ConstraintFlags::from(f), l); format!("{} {}", lv.level_idc(), if lv == Level::L1_b { "1b" } else { "-" }) }
+            "flags" => { let f: u8 = toks[1].parse().unwrap(); use h264_reader::nal::sps::ConstraintFlags; let c = ConstraintFlags::from(f); format!("{} {}{}{}{}{}{} {}", u8::from(c), c.flag0() as u8, c.flag1() as u8, c.flag2() as u8, c.flag3() as u8, c.flag4() as u8, c.flag5() as u8, c.reserved_zero_two_bits()) }
+            "spsid" => { let v: u32 = toks[1].parse().unwrap(); match h264_reader::nal::sps::SeqParamSetId::from_u32(v) { Ok(i) => format!("ok {}", i.id()), Err(_) => "err".into() } }
+            "ppsid" => { let v: u32 = toks[1].parse().unwrap(); match h264_reader::nal::pps::PicParamSetId::from_u32(v) { Ok(i) => format!("ok {}", i.id()), Err(_) => "err".into() } }
             _ => "bad-op".into(),
         }
     }
